@@ -5,7 +5,7 @@ from __future__ import annotations
 import ast
 
 from . import astutil as A
-from .alg import Closure, Interp, Obj, Poly, PyFunc, Undecided, fn, to_poly
+from .alg import Closure, Interp, Obj, Poly, PyFunc, Record, Undecided, fn, to_poly
 
 OPT = "src/pyhf/optimize/"
 SHIM_FILES = {"numpy": OPT + "opt_numpy.py", "jax": OPT + "opt_jax.py", "pytorch": OPT + "opt_pytorch.py", "tensorflow": OPT + "opt_tflow.py"}
@@ -107,7 +107,7 @@ def run_shim(repo, relpath, do_grad):
     env = {
         "objective": PyFunc(objective, "objective"), "data": Obj("data"), "pdf": Obj("pdf"), "stitch_pars": PyFunc(stitch, "stitch_pars"),
         "do_grad": do_grad,
-        "jit_pieces": {"fixed_values": Obj("FIXED_VALUES"), "fixed_idx": [Poly.const(1)], "variable_idx": [Poly.const(0), Poly.const(2)], "do_stitch": True},
+        "jit_pieces": Record({"fixed_values": Obj("FIXED_VALUES"), "fixed_idx": [Poly.const(1)], "variable_idx": [Poly.const(0), Poly.const(2)], "do_stitch": True}),
     }
     it = Interp(env, {}, {}, externals=ext)
     clo = it.run(A.strip_docstring(w.node.body))
@@ -190,7 +190,7 @@ def run_shim_history(repo, relpath, do_grad):
     env = {
         "objective": PyFunc(objective, "objective"), "data": Obj("data"), "pdf": Obj("pdf"), "stitch_pars": PyFunc(stitch, "stitch_pars"),
         "do_grad": do_grad,
-        "jit_pieces": {"fixed_values": Obj("FIXED_VALUES"), "fixed_idx": [Poly.const(1)], "variable_idx": [Poly.const(0), Poly.const(2)], "do_stitch": True},
+        "jit_pieces": Record({"fixed_values": Obj("FIXED_VALUES"), "fixed_idx": [Poly.const(1)], "variable_idx": [Poly.const(0), Poly.const(2)], "do_stitch": True}),
     }
     mod_env = {}
     for name, v in repo.module(relpath).assigns.items():  # module-level containers: state shared by every wrapped objective
